@@ -62,6 +62,72 @@ type ruleText struct {
 	trace int
 }
 
+// structRule builds the rule.Rule value that asks for the same rule without
+// going through the text parser: -a/-A/-S/-k/-w/-p arguments are taken from the
+// argument list, filters from the abstract items (whose text is the argument
+// minus field and operator).
+func (rt *ruleText) structRule() rule.Rule {
+	var list, action, path string
+	var syscalls, keys []string
+	var perms []rule.AccessType
+	var specs []rule.FilterSpec
+	typ := rule.AppendSyscallRuleType
+	item := 0
+	for i := 0; i+1 < len(rt.args); i += 2 {
+		v := rt.args[i+1]
+		switch rt.args[i] {
+		case "-a", "-A":
+			if rt.args[i] == "-A" {
+				typ = rule.PrependSyscallRuleType
+			}
+			for _, p := range strings.Split(v, ",") {
+				switch p {
+				case "always", "never":
+					action = p
+				default:
+					list = p
+				}
+			}
+		case "-S":
+			syscalls = append(syscalls, strings.Split(v, ",")...)
+		case "-k":
+			keys = append(keys, v)
+		case "-w":
+			path = v
+		case "-p":
+			for _, c := range v {
+				perms = append(perms, map[rune]rule.AccessType{'r': rule.ReadAccessType, 'w': rule.WriteAccessType,
+					'x': rule.ExecuteAccessType, 'a': rule.AttributeChangeAccessType}[c])
+			}
+		case "-F", "-C":
+			it := rt.ast.Items[item]
+			item++
+			if rt.args[i] == "-C" {
+				specs = append(specs, rule.FilterSpec{Type: rule.InterFieldFilterType, LHS: it.LHS, Comparator: it.Op, RHS: it.RHS})
+			} else {
+				specs = append(specs, rule.FilterSpec{Type: rule.ValueFilterType, LHS: it.LHS, Comparator: it.Op, RHS: v[len(it.LHS)+len(it.Op):]})
+			}
+		}
+	}
+	if rt.ast.Kind == "watch" {
+		return &rule.FileWatchRule{Type: rule.FileWatchRuleType, Path: path, Permissions: perms, Keys: keys}
+	}
+	return &rule.SyscallRule{Type: typ, List: list, Action: action, Filters: specs, Syscalls: syscalls, Keys: keys}
+}
+
+func buildStruct(r rule.Rule) (o buildOutcome) {
+	defer func() {
+		if p := recover(); p != nil {
+			o = buildOutcome{ret: "panic", err: fmt.Sprint(p)}
+		}
+	}()
+	w, err := rule.Build(r)
+	if err != nil {
+		return buildOutcome{ret: "err", err: err.Error()}
+	}
+	return buildOutcome{ret: "ok", wire: w}
+}
+
 func newAst() astRule {
 	return astRule{Kind: "syscall", Items: []astItem{}, Syscalls: astSyscalls{All: true, Nums: []int{}, Names: []astName{}},
 		Keys: [][]int{}, WPath: []int{}, WPerm: []int{}, WType: "path"}
@@ -132,6 +198,18 @@ func (e *ruleEnv) word(n int, special bool) string {
 		b[0] = 'x'
 	}
 	return string(b)
+}
+
+// utf8Word mixes multi-byte UTF-8 sequences (2, 3 and 4 bytes) into a word:
+// the kernel counts bytes, not characters.
+func (e *ruleEnv) utf8Word() string {
+	parts := []string{"na\u00efve", "\u00fcbung", "\u65e5\u672c\u8a9e", "caf\u00e9", "\U0001F512", "\u03b1\u03b2\u03b3", "x"}
+	var sb strings.Builder
+	for i := 1 + e.rng.Intn(4); i > 0; i-- {
+		sb.WriteString(parts[e.rng.Intn(len(parts))])
+		sb.WriteString(e.word(1+e.rng.Intn(4), false))
+	}
+	return sb.String()
 }
 
 func renderNum(r *rand.Rand, v uint32, style string) string {
@@ -234,7 +312,7 @@ func (e *ruleEnv) filterFor(field, op, vclass string) (arg string, it astItem, i
 		switch vclass {
 		case "short":
 			return mk(base, strItem(field, op, base))
-		case "long", "max", "special":
+		case "long", "max", "special", "utf8":
 			if field == "dir" {
 				return mk(base, strItem(field, op, base))
 			}
@@ -242,7 +320,11 @@ func (e *ruleEnv) filterFor(field, op, vclass string) (arg string, it astItem, i
 			if vclass == "max" {
 				n = 4096 - len(e.tmp) - 1
 			}
-			p := filepath.Join(e.tmp, e.word(n, false)) // does not exist: not a directory
+			leaf := e.word(n, false)
+			if vclass == "utf8" {
+				leaf = e.utf8Word()
+			}
+			p := filepath.Join(e.tmp, leaf) // does not exist: not a directory
 			p = strings.ReplaceAll(p, ",", "_")
 			return mk(p, strItem(field, op, p))
 		}
@@ -259,6 +341,8 @@ func (e *ruleEnv) filterFor(field, op, vclass string) (arg string, it astItem, i
 			s = e.word(100+r.Intn(400), false)
 		case "max":
 			s = e.word(4096, false)
+		case "utf8":
+			s = e.utf8Word()
 		default:
 			s = e.word(5+r.Intn(30), true)
 		}
@@ -289,6 +373,9 @@ func (e *ruleEnv) keys(n int, special bool) ([]string, [][]int) {
 	out := [][]int{}
 	for i := 0; i < n; i++ {
 		k := e.word(1+e.rng.Intn(12), special)
+		if e.rng.Intn(6) == 0 {
+			k = e.utf8Word()
+		}
 		k = strings.ReplaceAll(k, ",", "_")
 		ks = append(ks, k)
 		out = append(out, bytesOfS(k))
@@ -452,6 +539,9 @@ func (e *ruleEnv) instantiate(c map[string]interface{}) []*ruleText {
 			p = e.dir
 		} else if r.Intn(2) == 0 {
 			p = filepath.Join(e.tmp, e.word(6+r.Intn(20), false))
+			if r.Intn(3) == 0 {
+				p = filepath.Join(e.tmp, e.utf8Word())
+			}
 			p = strings.ReplaceAll(p, ",", "_")
 		}
 		rt.ast.WPath = bytesOfS(p)
@@ -529,7 +619,7 @@ func (e *ruleEnv) randomRule() *ruleText {
 		"exclude": {"pid", "uid", "gid", "auid", "msgtype", "subj_user", "subj_role", "subj_type", "subj_sen", "subj_clr", "exe"},
 	}[list]
 	vclasses := map[string][]string{
-		"uid": {"zero", "small", "max31", "high", "unset", "minus1", "name_root"}, "str": {"short", "long", "special"},
+		"uid": {"zero", "small", "max31", "high", "unset", "minus1", "name_root"}, "str": {"short", "long", "special", "utf8"},
 		"num": {"zero", "one", "dec", "hex", "neg", "max"}, "exit": {"zero", "pos", "neg", "errno_neg", "errno_pos", "min"},
 		"msgtype": {"num", "name", "high"}, "arch": {"b64", "b32", "x86_64", "i386", "aarch64", "arm", "ppc64", "s390x"},
 		"perm": {"r", "w", "x", "a", "rw", "wa", "rwxa"}, "filetype": {"file", "dir", "socket", "symlink", "char", "block", "fifo"},
@@ -718,11 +808,22 @@ func ruleRunCmd(args []string) int {
 			"inlen": len(line), "wire": []int{}, "line": line})
 		stats["rules"]++
 		stats["build_"+o.ret]++
-		if o.ret == "ok" && *round && rt.c07 {
-			rr := roundTrip(o.wire)
-			rr["trace"], rr["cls"], rr["line"] = trace, rt.cls, line
-			w.write(rr)
-			stats["round_trips"]++
+		// the same rule given to Build as a Rule value (no text parser in the way)
+		os2 := buildStruct(rt.structRule())
+		w.write(map[string]interface{}{"k": "build", "trace": trace, "cls": rt.cls, "via": "struct", "ast": rt.ast, "line": line,
+			"ret": os2.ret, "wire": bytesOf(os2.wire), "err": os2.err, "c07": rt.c07})
+		stats["struct_build_"+os2.ret]++
+		if *round && rt.c07 {
+			wire := o.wire
+			if o.ret != "ok" {
+				wire = os2.wire
+			}
+			if o.ret == "ok" || os2.ret == "ok" {
+				rr := roundTrip(wire)
+				rr["trace"], rr["cls"], rr["line"] = trace, rt.cls, line
+				w.write(rr)
+				stats["round_trips"]++
+			}
 		}
 	}
 	if *cases != "" {
